@@ -93,7 +93,15 @@ def cases(rng, tier):
     for i in range(6 if tier == "quick" else 30):
         s = rng.choice(["EKEKEKRDQGSA", "EKEKGGEKRDGG", "KEKEGGDRKEAG", "EKEKAGSGDRDR"])
         nb = rng.choice([3, 5, 6])
-        yield Case(["wlrun %s %d 0 1 %d 0 %s %d 300 -" % (s, nb, rng.randint(1, nb - 1), rng.choice(["126/1000", "251/1000"]), rng.randint(0, 10 ** 6))], {"kind": "criterion-zero-empty-bins"})
+        yield Case(["wlrun %s %d 0 1 %d 0 %s %d 300 -%s" % (s, nb, rng.randint(1, nb - 1), rng.choice(["126/1000", "251/1000"]), rng.randint(0, 10 ** 6), " @wrapper" if i % 2 else "")], {"kind": "criterion-zero-empty-bins"})
+    # the machine built by the public route SequencePermutants(...).initializeWangLandauParameters(...): same rules, every argument forwarded
+    for i in range(8 if tier == "quick" else 40):
+        s = rng.choice(["EKEKEKRDQGSA", "EKEKGGEKRDGG", "KEKEGGDRKEAG", "EKEKAGSGDRDR"])
+        nb = rng.choice([2, 3, 4, 5])
+        lo, hi = rng.choice([("0", "1"), ("0", "1"), ("1/5", "4/5"), ("2/5", "1")])
+        fr = "-" if rng.random() < 0.6 else ",".join(map(str, sorted(rng.sample(range(len(s)), 2))))
+        yield Case(["wlrun %s %d %s %s %d %s %s %d 400 %s @wrapper" % (s, nb, lo, hi, rng.choice([5, 20, 40]), rng.choice(["0", "1/4", "1/2", "3/4"]),
+                                                                    rng.choice(["501/1000", "251/1000", "1001/1000"]), rng.randint(0, 10 ** 6), fr)], {"kind": "wrapper-route"})
     # the SECOND run() on one machine obeys the same rules from the same initial state
     for i in range(3 if tier == "quick" else 12):
         s = rng.choice(["EKEKEKRDQGSA", "EKEKGGEKRDGG", "KEKEGGDRKE"])
